@@ -764,7 +764,8 @@ func (m *Memory) checkGc() {
 		defer m.gcMx.Unlock()
 
 		machId := m.Mach.Id()
-		upper := m.nextId.Load() - uint64(m.Cfg.MaxRecords)
+		// the newest record is nextId-1
+		upper := m.nextId.Load() - 1 - uint64(m.Cfg.MaxRecords)
 		deleted := 0
 
 		// delete in batches to stay within transaction size limits
